@@ -42,6 +42,9 @@ def scratch_dir():
 
 class C04(Check):
     pid = "C04"
+    level_text = (
+        "Bounded exhaustive over a FASTA grammar whose expected index, runs and intervals are known by construction (the file is generated, never parsed by the oracle); every interval of every record is fetched."
+    )
     technique = (
         "exhaustive scope enumeration on the real indexer / random access / cache writer: all FASTA files of a small "
         "grammar x buffer sizes, expectations known by construction"
